@@ -21,6 +21,7 @@ PROFILE = {
     "max_dur": 8,
     "max_delay_ticks": 16,
     "placements": True,
+    "multi_call": (1, 2),
 }
 ENTRIES = C.RETRY_ENTRIES + ["Retry.context.call", "AsyncRetry.context.call", "Policy.context.call", "AsyncRetryPolicy.context.call", "decorator.call", "adecorator.call", "Retry.from_config.call", "AsyncRetryPolicy.from_config.execute"]
 
